@@ -266,6 +266,7 @@ Section MetaProofs.
          modification and the emission only make sense together can supply its own proofs *)
       Hypothesis H_enter : forall ev st, presK R (enter_state ev st).
       Hypothesis H_process : forall ev i, presK R (process_transition ev i).
+      Hypothesis H_raise_event : forall e, presK R (raise_event e).
       Hypothesis L_queue : forall st e, R st (mkM (queue_event (m_i st) e) (m_x st) (m_tr st)) None.
       Hypothesis L_cfg : forall st c, R st (mkM (set_config ctx c (m_i st)) (m_x st) (m_tr st)) None.
       Hypothesis L_enter : forall st n c,
@@ -316,7 +317,7 @@ Section MetaProofs.
       Proof.
         unfold Interp.apply_step.
         pq; first [apply a_exit_state | apply H_process | apply H_enter
-                  | apply a_raise_event | apply L_sent].
+                  | apply H_raise_event | apply L_sent].
       Qed.
 
       Lemma a_stabilize fuel : presK R (stabilize fuel).
@@ -643,11 +644,17 @@ Section MetaProofs.
   Lemma Rt_process_transition ev i : presK Rt (process_transition ev i).
   Proof. apply a_process_transition; rti. Qed.
   Lemma Rt_apply_step step : presK Rt (apply_step step).
-  Proof. apply a_apply_step; first [exact Rt_enter_state | exact Rt_process_transition | rti]. Qed.
+  Proof.
+    apply a_apply_step; first [exact Rt_enter_state | exact Rt_process_transition | exact Rt_raise_event | rti].
+  Qed.
   Lemma Rt_stabilize fuel : presK Rt (stabilize fuel).
-  Proof. apply a_stabilize; first [exact Rt_enter_state | exact Rt_process_transition | rti]. Qed.
+  Proof.
+    apply a_stabilize; first [exact Rt_enter_state | exact Rt_process_transition | exact Rt_raise_event | rti].
+  Qed.
   Lemma Rt_run_steps fuel steps : presK Rt (run_steps fuel steps).
-  Proof. apply a_run_steps; first [exact Rt_enter_state | exact Rt_process_transition | rti]. Qed.
+  Proof.
+    apply a_run_steps; first [exact Rt_enter_state | exact Rt_process_transition | exact Rt_raise_event | rti].
+  Qed.
   Lemma Rt_consume_event : presK Rt consume_event.
   Proof. apply a_consume_event; rti. Qed.
 
@@ -1433,6 +1440,543 @@ Section MetaProofs.
           -- intros macros Hm. inversion Hm. constructor.
       + apply C13_frozen in H1. destruct H1 as (T1 & (l1 & L1 & F1 & X1 & _) & _).
         split; [now right|]. split; [exists l1; auto | discriminate].
+  Qed.
+
+  (* ---------------------------------------------------------------- C15_sent_truth *)
+  Definition sent_events_of (ms : list meta) : list event :=
+    flat_map (fun m => match m with MSent e => [e] | _ => [] end) ms.
+  Definition is_internal (e : event) : bool := ekind_eqb (e_kind e) Internal.
+  Definition internal_sent (steps : list microstep) : list event :=
+    filter is_internal (flat_map ms_sent steps).
+  Definition macro_internal_sent (macro : option macrostep) : list event :=
+    match macro with Some (_, steps) => internal_sent steps | None => [] end.
+
+  Lemma sent_events_of_app a b : sent_events_of (a ++ b) = sent_events_of a ++ sent_events_of b.
+  Proof. apply flat_map_app. Qed.
+
+  Lemma sent_events_of_none (f : name -> meta) l :
+    (forall n, match f n with MSent _ => False | _ => True end) -> sent_events_of (map f l) = [].
+  Proof.
+    intros Hf. induction l as [|n l IH]; cbn; [reflexivity|].
+    specialize (Hf n). destruct (f n); cbn; auto. contradiction.
+  Qed.
+
+  Lemma sent_events_sent l : sent_events_of (flat_map sent_meta l) = filter is_internal l.
+  Proof.
+    induction l as [|e l IH]; cbn [flat_map filter]; [reflexivity|].
+    rewrite sent_events_of_app, IH. unfold sent_meta, is_internal.
+    destruct (e_kind e); cbn; try reflexivity. destruct (has_delay e); reflexivity.
+  Qed.
+
+  Lemma sent_events_micro a : sent_events_of (spec_meta_micro a) = filter is_internal (ms_sent a).
+  Proof.
+    unfold spec_meta_micro. rewrite !sent_events_of_app, sent_events_sent.
+    rewrite (sent_events_of_none MExited) by (intros; exact I).
+    rewrite (sent_events_of_none MEntered) by (intros; exact I).
+    unfold processed_meta. destruct (ms_trans a) as [i|]; [|reflexivity].
+    destruct (nth_error _ i); reflexivity.
+  Qed.
+
+  Lemma sent_events_steps steps :
+    sent_events_of (flat_map spec_meta_micro steps) = internal_sent steps.
+  Proof.
+    unfold internal_sent. induction steps as [|a r IH]; cbn [flat_map]; [reflexivity|].
+    now rewrite sent_events_of_app, filter_app, sent_events_micro, IH.
+  Qed.
+
+  Lemma sent_events_spec_meta now macro :
+    sent_events_of (spec_meta now macro) = macro_internal_sent macro.
+  Proof.
+    unfold spec_meta. rewrite !sent_events_of_app. cbn [sent_events_of flat_map app].
+    rewrite app_nil_r. destruct macro as [[t steps]|]; [|reflexivity]. cbn [macro_metas].
+    rewrite sent_events_of_app, sent_events_steps.
+    destruct (macro_event steps); reflexivity.
+  Qed.
+
+  (* C15_sent_truth.  In a normally returning execute_once the 'event sent' meta-events, oldest
+     first, carry exactly the internal events of the sent_events of the returned macro step, event
+     for event. *)
+  Theorem C15_sent_truth fuel now s s' macro :
+    names_ok -> execute_once fuel now s = (s', inl macro) ->
+    exists l, m_tr s' = l ++ m_tr s /\ sent_events_of (tr_metas l) = macro_internal_sent macro.
+  Proof.
+    intros Hn H. destruct (C10_complete _ _ _ _ _ Hn H) as (l & L & Ml).
+    exists l. split; auto. rewrite Ml. apply sent_events_spec_meta.
+  Qed.
+
+  (* ... and each of them is put in the sender's own internal queue by _queue_event before the
+     listeners hear of it (C15_self): _raise_event(InternalEvent) = _queue_event then the
+     meta-event(s); the interpreter state is not touched by the listeners. *)
+  Lemma raise_meta_mi m s s' r : raise_meta m s = (s', r) -> m_i s' = m_i s.
+  Proof. intros H. apply raise_meta_spec in H. destruct H as [-> _]. reflexivity. Qed.
+
+  Theorem C15_self_raise_event e s s' r :
+    e_kind e = Internal -> raise_event e s = (s', r) ->
+    m_i s' = queue_event (m_i s) e /\
+    i_iq (m_i s') = queue_insert (i_iq (m_i s)) (i_time (m_i s) + delay_of e)%Z e /\
+    i_eq (m_i s') = i_eq (m_i s) /\
+    exists l, m_tr s' = l ++ [ObMeta (MSent e)] ++ m_tr s.
+  Proof.
+    intros K H. unfold Interp.raise_event in H. rewrite K, bind_modify in H.
+    assert (Q : forall i : ist, i_iq (queue_event i e) = queue_insert (i_iq i) (i_time i + delay_of e)%Z e
+                                /\ i_eq (queue_event i e) = i_eq i).
+    { intros i. unfold queue_event. rewrite K. cbn. auto. }
+    apply bind_inv in H. destruct H as [(s1 & u & H1 & H)|(e0 & H1 & ->)].
+    - pose proof (raise_meta_spec _ _ _ _ H1) as [-> _]. cbn [m_i m_x m_tr] in *.
+      destruct (has_delay e).
+      + pose proof (raise_meta_spec _ _ _ _ H) as [-> _]. cbn [m_i m_x m_tr].
+        split; [reflexivity|]. split; [apply Q|]. split; [apply Q|].
+        exists [ObMeta (MDelayedSent e)]. reflexivity.
+      + inversion H; subst. cbn [m_i m_x m_tr].
+        split; [reflexivity|]. split; [apply Q|]. split; [apply Q|]. exists []. reflexivity.
+    - pose proof (raise_meta_spec _ _ _ _ H1) as [-> _]. cbn [m_i m_x m_tr].
+      split; [reflexivity|]. split; [apply Q|]. split; [apply Q|]. exists []. reflexivity.
+  Qed.
+
+  (* names_ok is decidable *)
+  Definition names_okb : bool :=
+    forallb (fun kv : name * state => str_eqb (s_name (snd kv)) (fst kv)) (c_states sc).
+  Lemma names_okb_sound : names_okb = true -> names_ok.
+  Proof.
+    unfold names_okb, names_ok, state_for. induction (c_states sc) as [|[k v] d IH]; cbn; intros H n st L.
+    - discriminate.
+    - apply andb_prop in H. destruct H as [H1 H2]. unfold str_eqb in *.
+      destruct (String.eqb n k) eqn:E.
+      + inversion L; subst. apply String.eqb_eq in E, H1. congruence.
+      + now apply IH.
+  Qed.
+
+  (* ---------------------------------------------------------------- C13_entry_idle *)
+  (* _entry_time / _idle_time as a function of the meta-events emitted: 'state entered n' stamps
+     both, 'transition processed' stamps the idle time of the source.  The stamp and the
+     meta-event always come together (the modification cannot fail, raise_meta records the
+     meta-event even when a listener raises), so the relation holds whatever the outcome. *)
+  Definition entered_of (ms : list meta) : list name :=
+    flat_map (fun m => match m with MEntered n => [n] | _ => [] end) ms.
+  Definition touched_of (ms : list meta) : list name :=
+    flat_map (fun m => match m with MEntered n => [n] | MProcessed src _ _ => [src] | _ => [] end) ms.
+  Definition upd (t : Z) (names : list name) (d : list (name * Z)) : list (name * Z) :=
+    fold_left (fun d n => dset n t d) names d.
+
+  Lemma upd_app t a b d : upd t (a ++ b) d = upd t b (upd t a d).
+  Proof. apply fold_left_app. Qed.
+
+  Definition Re (s s' : mstate) (k : option err) : Prop :=
+    i_time (m_i s') = i_time (m_i s) /\
+    exists l, m_tr s' = l ++ m_tr s /\
+      i_entry (m_i s') = upd (i_time (m_i s)) (entered_of (tr_metas l)) (i_entry (m_i s)) /\
+      i_idle (m_i s') = upd (i_time (m_i s)) (touched_of (tr_metas l)) (i_idle (m_i s)).
+
+  Lemma Re_refl s k : Re s s k.
+  Proof. split; auto. exists []. repeat split; auto. Qed.
+  Lemma Re_trans a b c k : Re a b None -> Re b c k -> Re a c k.
+  Proof.
+    intros (T1 & l1 & L1 & E1 & I1) (T2 & l2 & L2 & E2 & I2).
+    split; [congruence|]. exists (l2 ++ l1). repeat split.
+    - now rewrite L2, L1, app_assoc.
+    - rewrite tr_metas_app. unfold entered_of. rewrite flat_map_app, upd_app.
+      fold (entered_of (tr_metas l1)). rewrite <- E1, <- T1. exact E2.
+    - rewrite tr_metas_app. unfold touched_of. rewrite flat_map_app, upd_app.
+      fold (touched_of (tr_metas l1)). rewrite <- I1, <- T1. exact I2.
+  Qed.
+  Lemma Rq_Re s s' k : Rq s s' -> Re s s' k.
+  Proof.
+    intros (_ & T1 & E1 & I1 & _ & _ & l & L & F). split; auto.
+    exists l. rewrite (quiet_no_metas _ _ F). repeat split; auto.
+  Qed.
+  Lemma Re_mi st i :
+    i_time i = i_time (m_i st) -> i_entry i = i_entry (m_i st) -> i_idle i = i_idle (m_i st) ->
+    Re st (mkM i (m_x st) (m_tr st)) None.
+  Proof. intros H1 H2 H3. split; auto. exists []. repeat split; auto. Qed.
+  Lemma Re_meta m :
+    entered_of [m] = [] -> touched_of [m] = [] -> presK Re (raise_meta m).
+  Proof.
+    intros H1 H2 s s' r H. apply raise_meta_spec in H. destruct H as [-> _].
+    split; [reflexivity|]. exists [ObMeta m]. change (tr_metas [ObMeta m]) with [m].
+    rewrite H1, H2. repeat split; auto.
+  Qed.
+
+  Lemma Re_enter_state ev st : presK Re (enter_state ev st).
+  Proof.
+    unfold Interp.enter_state.
+    apply pres_bind; [exact Re_trans | intros s s' r H; eapply Rq_Re, Rq_state_contract, H | intros _].
+    apply pres_bind; [exact Re_trans | intros s s' r H; eapply Rq_Re, Rq_run_code, H | intros sent].
+    intros s s' r H. rewrite bind_modify in H.
+    assert (E : m_tr s' = [ObMeta (MEntered (s_name st))] ++ m_tr s /\
+                m_i s' = set_idle ctx (dset (s_name st) (i_time (m_i s)) (i_idle (m_i s)))
+                           (set_entry ctx (dset (s_name st) (i_time (m_i s)) (i_entry (m_i s)))
+                              (set_config ctx (set_add (s_name st) (i_config (m_i s))) (m_i s)))).
+    { apply bind_inv in H. destruct H as [(s1 & u & H1 & H)|(e & H1 & _)].
+      - apply raise_meta_spec in H1. destruct H1 as [-> _]. inversion H; subst. auto.
+      - apply raise_meta_spec in H1. destruct H1 as [-> _]. auto. }
+    destruct E as [E1 E2]. split; [rewrite E2; reflexivity|].
+    exists [ObMeta (MEntered (s_name st))]. rewrite E2. repeat split; auto.
+  Qed.
+
+  Lemma Re_process_transition ev i : presK Re (process_transition ev i).
+  Proof.
+    unfold Interp.process_transition. destruct (nth_error (c_transitions sc) i) as [t|];
+      [|apply pres_fail; exact Re_refl].
+    assert (Q : forall k it e, presK Re (trans_contract k it e)).
+    { intros k it e s s' r H. eapply Rq_Re, Rq_trans_contract, H. }
+    apply pres_bind; [exact Re_trans | apply Q | intros _].
+    apply pres_bind; [exact Re_trans | apply Q | intros _].
+    apply pres_bind; [exact Re_trans | intros s s' r H; eapply Rq_Re, Rq_run_code, H | intros sent].
+    apply pres_bind; [exact Re_trans | apply Q | intros _].
+    apply pres_bind; [exact Re_trans | apply Q | intros _].
+    intros s s' r H. rewrite bind_modify in H.
+    assert (E : m_tr s' = [ObMeta (MProcessed (t_source t) (t_target t) ev)] ++ m_tr s /\
+                m_i s' = set_idle ctx (dset (t_source t) (i_time (m_i s)) (i_idle (m_i s))) (m_i s)).
+    { apply bind_inv in H. destruct H as [(s1 & u & H1 & H)|(e & H1 & _)].
+      - apply raise_meta_spec in H1. destruct H1 as [-> _]. inversion H; subst. auto.
+      - apply raise_meta_spec in H1. destruct H1 as [-> _]. auto. }
+    destruct E as [E1 E2]. split; [rewrite E2; reflexivity|].
+    exists [ObMeta (MProcessed (t_source t) (t_target t) ev)]. rewrite E2. repeat split; auto.
+  Qed.
+
+  Lemma queue_event_entry_idle (i : ist) e :
+    i_entry (queue_event i e) = i_entry i /\ i_idle (queue_event i e) = i_idle i.
+  Proof. unfold queue_event. destruct (e_kind e); auto. Qed.
+
+  Ltac rei := first [ exact Re_refl | exact Re_trans
+                    | (intros; intros ? ? ? HH; eapply Rq_Re, Rq_run_code, HH)
+                    | (intros; intros ? ? ? HH; eapply Rq_Re, Rq_eval_cond, HH)
+                    | (intros; apply Rq_Re, Rq_old) | (intros; apply Rq_Re, Rq_mem)
+                    | (intros; apply Rq_Re, Rq_sel) | (intros; apply Rq_Re, Rq_init)
+                    | (intros; apply Re_meta; reflexivity)
+                    | exact Re_enter_state | exact Re_process_transition
+                    | (intros; apply Re_mi; first [reflexivity | apply queue_event_time
+                                                   | apply queue_event_entry_idle]) ].
+
+  Lemma Re_raise_event e : presK Re (raise_event e).
+  Proof. apply a_raise_event; rei. Qed.
+  Lemma Re_run_steps fuel steps : presK Re (run_steps fuel steps).
+  Proof. apply a_run_steps; first [exact Re_raise_event | rei]. Qed.
+  Lemma Re_consume_event : presK Re consume_event.
+  Proof. apply a_consume_event; rei. Qed.
+  Lemma Re_compute_steps : presK Re compute_steps.
+  Proof. intros s s' r H. eapply Rq_Re, Rq_compute_steps, H. Qed.
+  Lemma Re_check_invariants ev : presK Re (check_invariants ev).
+  Proof. intros s s' r H. eapply Rq_Re, Rq_check_invariants, H. Qed.
+
+  Lemma Re_macro_part fuel steps : presK Re (macro_part fuel steps).
+  Proof.
+    unfold macro_part, consume_part.
+    repeat (pstep Re_refl Re_trans);
+      first [ apply Re_consume_event | apply Re_meta; reflexivity | apply Re_run_steps ].
+  Qed.
+
+  (* whatever the outcome of execute_once, the time stamps are those of before, overwritten with
+     now for the states named by the emitted 'state entered' / 'transition processed' *)
+  Lemma execute_once_stamps fuel now s s' r :
+    execute_once fuel now s = (s', r) ->
+    exists l, m_tr s' = l ++ m_tr s /\
+      i_entry (m_i s') = upd now (entered_of (tr_metas l)) (i_entry (m_i s)) /\
+      i_idle (m_i s') = upd now (touched_of (tr_metas l)) (i_idle (m_i s)).
+  Proof.
+    rewrite execute_once_eq, bind_modify. intros H.
+    assert (HR : Re (mkM (set_sent ctx [] (set_time ctx now (m_i s))) (m_x s) (m_tr s)) s' (err_of r)).
+    { refine ((_ : presK Re _) _ _ _ H).
+      repeat (pstep Re_refl Re_trans);
+        first [ apply Re_meta; reflexivity | apply Re_compute_steps | apply Re_macro_part
+              | apply Re_check_invariants ]. }
+    destruct HR as (_ & l & L & E & I). exists l. auto.
+  Qed.
+
+  Lemma lookup_dset {V} n k (v : V) d : lookup n (dset k v d) = if str_eqb n k then Some v else lookup n d.
+  Proof.
+    unfold str_eqb. induction d as [|[k' v'] d IH]; cbn.
+    - reflexivity.
+    - unfold str_eqb. destruct (String.eqb k k') eqn:E; cbn; unfold str_eqb.
+      + apply String.eqb_eq in E; subst k'. destruct (String.eqb n k); reflexivity.
+      + destruct (String.eqb n k') eqn:E'.
+        * apply String.eqb_eq in E'; subst k'.
+          destruct (String.eqb n k) eqn:E2; [|reflexivity].
+          apply String.eqb_eq in E2; subst. rewrite String.eqb_refl in E. discriminate.
+        * exact IH.
+  Qed.
+
+  Lemma lookup_upd t names n : forall d,
+    lookup n (upd t names d) = if mem n names then Some t else lookup n d.
+  Proof.
+    induction names as [|k names IH]; intros d; cbn [upd fold_left mem]; [reflexivity|].
+    change (fold_left _ names ?x) with (upd t names x). rewrite IH, lookup_dset.
+    destruct (mem n names); [now rewrite orb_true_r|]. now rewrite orb_false_r.
+  Qed.
+
+  (* the entered / touched states of a macro step *)
+  Definition processed_source (a : microstep) : list name :=
+    match ms_trans a with
+    | Some i => match nth_error (c_transitions sc) i with Some t => [t_source t] | None => [] end
+    | None => []
+    end.
+  Definition steps_entered (steps : list microstep) : list name := flat_map ms_entered steps.
+  Definition steps_touched (steps : list microstep) : list name :=
+    flat_map (fun a => processed_source a ++ ms_entered a) steps.
+  Definition macro_steps (macro : option macrostep) : list microstep :=
+    match macro with Some (_, steps) => steps | None => [] end.
+
+  Lemma entered_of_app a b : entered_of (a ++ b) = entered_of a ++ entered_of b.
+  Proof. apply flat_map_app. Qed.
+  Lemma touched_of_app a b : touched_of (a ++ b) = touched_of a ++ touched_of b.
+  Proof. apply flat_map_app. Qed.
+
+  Lemma entered_of_sent l : entered_of (flat_map sent_meta l) = [] /\ touched_of (flat_map sent_meta l) = [].
+  Proof.
+    induction l as [|e l [IH1 IH2]]; cbn [flat_map]; [auto|].
+    rewrite entered_of_app, touched_of_app, IH1, IH2. unfold sent_meta.
+    destruct (e_kind e); cbn; auto. destruct (has_delay e); auto.
+  Qed.
+  Lemma entered_of_exited l : entered_of (map MExited l) = [] /\ touched_of (map MExited l) = [].
+  Proof. induction l as [|n l [IH1 IH2]]; cbn; auto. Qed.
+  Lemma entered_of_entered l : entered_of (map MEntered l) = l /\ touched_of (map MEntered l) = l.
+  Proof.
+    induction l as [|n l [IH1 IH2]]; [auto|]. unfold entered_of, touched_of in *. cbn. now rewrite IH1, IH2.
+  Qed.
+
+  Lemma entered_of_micro a :
+    entered_of (spec_meta_micro a) = ms_entered a /\
+    touched_of (spec_meta_micro a) = processed_source a ++ ms_entered a.
+  Proof.
+    unfold spec_meta_micro. rewrite !entered_of_app, !touched_of_app.
+    destruct (entered_of_sent (ms_sent a)) as [-> ->].
+    destruct (entered_of_exited (ms_exited a)) as [-> ->].
+    destruct (entered_of_entered (ms_entered a)) as [-> ->].
+    rewrite !app_nil_r. cbn [app].
+    unfold processed_meta, processed_source. destruct (ms_trans a) as [i|]; [|auto].
+    destruct (nth_error _ i); auto.
+  Qed.
+
+  Lemma entered_of_steps steps :
+    entered_of (flat_map spec_meta_micro steps) = steps_entered steps /\
+    touched_of (flat_map spec_meta_micro steps) = steps_touched steps.
+  Proof.
+    unfold steps_entered, steps_touched. induction steps as [|a r [IH1 IH2]]; cbn [flat_map]; [auto|].
+    rewrite entered_of_app, touched_of_app, IH1, IH2. destruct (entered_of_micro a) as [-> ->]. auto.
+  Qed.
+
+  Lemma entered_of_spec_meta now macro :
+    entered_of (spec_meta now macro) = steps_entered (macro_steps macro) /\
+    touched_of (spec_meta now macro) = steps_touched (macro_steps macro).
+  Proof.
+    unfold spec_meta. rewrite !entered_of_app, !touched_of_app. cbn [entered_of touched_of flat_map app].
+    rewrite !app_nil_r. destruct macro as [[t steps]|]; cbn [macro_metas macro_steps]; [|auto].
+    rewrite entered_of_app, touched_of_app. destruct (entered_of_steps steps) as [-> ->].
+    destruct (macro_event steps); auto.
+  Qed.
+
+  (* C13_entry_idle.  After an execute_once at time now that returns macro: the entry time of a
+     state is now if it is in the entered list of some executed micro step, otherwise unchanged;
+     its idle time is now if it was entered or was the source of a transition processed in one
+     of the micro steps, otherwise unchanged. *)
+  Theorem C13_entry_idle fuel now s s' macro :
+    names_ok -> execute_once fuel now s = (s', inl macro) ->
+    forall n,
+      lookup n (i_entry (m_i s')) =
+        (if mem n (steps_entered (macro_steps macro)) then Some now else lookup n (i_entry (m_i s))) /\
+      lookup n (i_idle (m_i s')) =
+        (if mem n (steps_touched (macro_steps macro)) then Some now else lookup n (i_idle (m_i s))).
+  Proof.
+    intros Hn H n. destruct (execute_once_stamps _ _ _ _ _ H) as (l & L & E & I).
+    destruct (C10_complete _ _ _ _ _ Hn H) as (l' & L' & Ml).
+    assert (l' = l) by (apply (app_inv_tail (m_tr s)); congruence). subst l'.
+    rewrite Ml in E, I. destruct (entered_of_spec_meta now macro) as [E1 E2].
+    rewrite E1 in E. rewrite E2 in I. rewrite E, I, !lookup_upd. auto.
+  Qed.
+
+  (* ... and these are the bases handed to after() / idle(): guards of a transition t see the
+     stamps of t's source, invariants and postconditions those of their owner state (by
+     definition of mk_call); time is the step time (C13_frozen). *)
+  Theorem C13_after_idle_base (i : ist) k o idx cd ev :
+    (k = CGuard \/ k = CInv \/ k = CPost) ->
+    cl_time (mk_call i k o idx cd ev) = i_time i /\
+    cl_entry (mk_call i k o idx cd ev) =
+      match owner_state sc o with Some n => lookup n (i_entry i) | None => None end /\
+    cl_idle (mk_call i k o idx cd ev) =
+      match owner_state sc o with Some n => lookup n (i_idle i) | None => None end.
+  Proof. intros [-> | [-> | ->]]; repeat split. Qed.
+
+  (* ---------------------------------------------------------------- C15_self, whole step *)
+  (* the internal queue as a function of the 'event sent' meta-events emitted *)
+  Definition ins (t : Z) (evs : list event) (q : list (Z * event)) : list (Z * event) :=
+    fold_left (fun q e => queue_insert q (t + delay_of e)%Z e) evs q.
+  Lemma ins_app t a b q : ins t (a ++ b) q = ins t b (ins t a q).
+  Proof. apply fold_left_app. Qed.
+
+  Definition Rs (s s' : mstate) (k : option err) : Prop :=
+    i_time (m_i s') = i_time (m_i s) /\
+    exists l, m_tr s' = l ++ m_tr s /\
+      i_iq (m_i s') = ins (i_time (m_i s)) (sent_events_of (tr_metas l)) (i_iq (m_i s)) /\
+      i_eq (m_i s') = i_eq (m_i s).
+
+  Lemma Rs_refl s k : Rs s s k.
+  Proof. split; auto. exists []. repeat split; auto. Qed.
+  Lemma Rs_trans a b c k : Rs a b None -> Rs b c k -> Rs a c k.
+  Proof.
+    intros (T1 & l1 & L1 & Q1 & E1) (T2 & l2 & L2 & Q2 & E2).
+    split; [congruence|]. exists (l2 ++ l1). repeat split.
+    - now rewrite L2, L1, app_assoc.
+    - rewrite tr_metas_app, sent_events_of_app, ins_app, <- Q1, <- T1. exact Q2.
+    - congruence.
+  Qed.
+  Lemma Rq_Rs s s' k : Rq s s' -> Rs s s' k.
+  Proof.
+    intros (_ & T1 & _ & _ & Q1 & Q2 & l & L & F). split; auto.
+    exists l. rewrite (quiet_no_metas _ _ F). repeat split; auto.
+  Qed.
+  Lemma Rs_mi st i :
+    i_time i = i_time (m_i st) -> i_iq i = i_iq (m_i st) -> i_eq i = i_eq (m_i st) ->
+    Rs st (mkM i (m_x st) (m_tr st)) None.
+  Proof. intros H1 H2 H3. split; auto. exists []. repeat split; auto. Qed.
+  Lemma Rs_meta m : sent_events_of [m] = [] -> presK Rs (raise_meta m).
+  Proof.
+    intros H1 s s' r H. apply raise_meta_spec in H. destruct H as [-> _].
+    split; [reflexivity|]. exists [ObMeta m]. change (tr_metas [ObMeta m]) with [m].
+    rewrite H1. repeat split; auto.
+  Qed.
+
+  Lemma Rs_raise_event e : presK Rs (raise_event e).
+  Proof.
+    destruct (e_kind e) eqn:K.
+    - unfold Interp.raise_event. rewrite K. apply pres_ret. exact Rs_refl.
+    - intros s s' r H. destruct (C15_self_raise_event _ _ _ _ K H) as (Hi & Q & E & l & L).
+      split; [rewrite Hi; apply queue_event_time|].
+      exists (l ++ [ObMeta (MSent e)]). rewrite <- app_assoc. split; [exact L|].
+      split; [|exact E]. rewrite Q. rewrite tr_metas_app. change (tr_metas [ObMeta (MSent e)]) with [MSent e].
+      assert (Hl : sent_events_of (tr_metas l) = []).
+      { (* l is empty or the delayed event sent *)
+        unfold Interp.raise_event in H. rewrite K, bind_modify in H.
+        apply bind_inv in H. destruct H as [(s1 & u & H1 & H)|(e0 & H1 & _)].
+        - apply raise_meta_spec in H1. destruct H1 as [-> _].
+          destruct (has_delay e).
+          + apply raise_meta_spec in H. destruct H as [-> _]. cbn [m_tr] in L.
+            change (ObMeta (MDelayedSent e) :: ObMeta (MSent e) :: m_tr s)
+              with ([ObMeta (MDelayedSent e)] ++ [ObMeta (MSent e)] ++ m_tr s) in L.
+            apply app_inv_tail in L. subst l. reflexivity.
+          + inversion H; subst. cbn [m_tr] in L.
+            change (ObMeta (MSent e) :: m_tr s) with ([] ++ [ObMeta (MSent e)] ++ m_tr s) in L.
+            apply app_inv_tail in L. subst l. reflexivity.
+        - apply raise_meta_spec in H1. destruct H1 as [-> _]. cbn [m_tr] in L.
+          change (ObMeta (MSent e) :: m_tr s) with ([] ++ [ObMeta (MSent e)] ++ m_tr s) in L.
+          apply app_inv_tail in L. subst l. reflexivity. }
+      rewrite sent_events_of_app, Hl, app_nil_r. reflexivity.
+    - unfold Interp.raise_event. rewrite K. apply Rs_meta. reflexivity.
+  Qed.
+
+  Ltac rsi := first [ exact Rs_refl | exact Rs_trans
+                    | (intros; intros ? ? ? HH; eapply Rq_Rs, Rq_run_code, HH)
+                    | (intros; intros ? ? ? HH; eapply Rq_Rs, Rq_eval_cond, HH)
+                    | (intros; apply Rq_Rs, Rq_old) | (intros; apply Rq_Rs, Rq_mem)
+                    | (intros; apply Rq_Rs, Rq_sel) | (intros; apply Rq_Rs, Rq_init)
+                    | (intros; apply Rs_meta; reflexivity)
+                    | exact Rs_raise_event
+                    | (intros; apply Rs_mi; reflexivity) ].
+
+  Lemma Rs_enter_state ev st : presK Rs (enter_state ev st).
+  Proof. apply a_enter_state; rsi. Qed.
+  Lemma Rs_process_transition ev i : presK Rs (process_transition ev i).
+  Proof. apply a_process_transition; rsi. Qed.
+
+  (* C15_self for a whole run of micro steps, whatever its outcome: the sender's internal queue
+     is the one of before with every event announced by 'event sent' inserted by _queue_event at
+     step time + delay, in order; the external queue is untouched. *)
+  Theorem C15_self_run_steps fuel steps : presK Rs (run_steps fuel steps).
+  Proof.
+    apply a_run_steps; first [exact Rs_enter_state | exact Rs_process_transition | rsi].
+  Qed.
+
+  Lemma consume_event_iq s s' r :
+    consume_event s = (s', r) ->
+    i_time (m_i s') = i_time (m_i s) /\
+    (i_iq (m_i s') = i_iq (m_i s) \/ exists te, i_iq (m_i s) = te :: i_iq (m_i s')).
+  Proof.
+    unfold Interp.consume_event. rewrite bind_get.
+    destruct (i_iq (m_i s)) as [|[t e] q'] eqn:Q.
+    - destruct (i_eq (m_i s)) as [|[t2 e2] q2].
+      + intros H; inversion H; subst; auto.
+      + destruct (t2 <=? i_time (m_i s))%Z; [rewrite bind_put|]; intros H; inversion H; subst; cbn; auto.
+    - destruct (t <=? i_time (m_i s))%Z.
+      + rewrite bind_put; intros H; inversion H; subst; cbn. split; auto. right. eauto.
+      + destruct (i_eq (m_i s)) as [|[t2 e2] q2].
+        * intros H; inversion H; subst; auto.
+        * destruct (t2 <=? i_time (m_i s))%Z; [rewrite bind_put|]; intros H; inversion H; subst; cbn; auto.
+  Qed.
+
+  Lemma consume_part_iq first s s' r :
+    consume_part first s = (s', r) ->
+    i_time (m_i s') = i_time (m_i s) /\
+    (i_iq (m_i s') = i_iq (m_i s) \/ exists te, i_iq (m_i s) = te :: i_iq (m_i s')).
+  Proof.
+    unfold consume_part. destruct (ms_event first).
+    - intros H. apply bind_inv in H. destruct H as [(s1 & oe & H1 & H)|(e0 & H1 & _)].
+      + apply consume_event_iq in H1. destruct oe as [ev|].
+        * apply raise_meta_mi in H. now rewrite H.
+        * inversion H; subst. exact H1.
+      + apply consume_event_iq in H1. exact H1.
+    - intros H; inversion H; subst. auto.
+  Qed.
+
+  (* C15_self.  After an execute_once at time now that returns a macro step, the sender's own
+     internal queue is: the queue of before, minus the consumed event if it was an internal one
+     (q0), plus every internal event of the macro step's sent events, inserted by _queue_event at
+     now + delay, in sending order. *)
+  Theorem C15_self fuel now s s' t steps :
+    names_ok -> execute_once fuel now s = (s', inl (Some (t, steps))) ->
+    exists q0, (q0 = i_iq (m_i s) \/ exists te, i_iq (m_i s) = te :: q0) /\
+               i_iq (m_i s') = ins now (internal_sent steps) q0.
+  Proof.
+    intros Hn. rewrite execute_once_eq, bind_modify. intros H.
+    apply bind_inv in H. destruct H as [(s1 & u1 & H1 & H)|(e & _ & H)]; [|discriminate].
+    apply bind_inv in H. destruct H as [(s2 & cs & H2 & H)|(e & _ & H)]; [|discriminate].
+    apply bind_inv in H. destruct H as [(s3 & macro & H3 & H)|(e & _ & H)]; [|discriminate].
+    apply bind_inv in H. destruct H as [(s4 & u4 & H4 & H)|(e & _ & H)]; [|discriminate].
+    apply bind_inv in H. destruct H as [(s5 & u5 & H5 & H)|(e & _ & H)]; [|discriminate].
+    inversion H; subst. clear H.
+    apply raise_meta_mi in H5. rewrite H5.
+    apply Rq_check_invariants in H4. destruct H4 as (_ & _ & _ & _ & Q4 & _). rewrite Q4.
+    pose proof (compute_steps_events _ _ _ H2) as (ev' & F & _).
+    apply Rq_compute_steps in H2. destruct H2 as (_ & T2 & _ & _ & Q2 & _).
+    apply raise_meta_mi in H1. rewrite H1 in T2, Q2. cbn in T2, Q2.
+    unfold macro_part in H3. destruct cs as [|first rest]; [inversion H3|].
+    apply bind_inv in H3. destruct H3 as [(sa & ua & Ha & H3)|(e & _ & H3)]; [|discriminate].
+    apply bind_inv in H3. destruct H3 as [(sb & ex & Hb & H3)|(e & _ & H3)]; [|discriminate].
+    rewrite bind_get in H3. inversion H3; subst. clear H3.
+    apply consume_part_iq in Ha. destruct Ha as [Ta Qa].
+    pose proof (C15_self_run_steps _ _ _ _ _ Hb) as (Tb & l & L & Qb & _).
+    apply (run_steps_metas Hn _ _ _ _ _ _ F) in Hb. destruct Hb as (p & (l' & L' & Ml) & -> & _).
+    assert (l' = l) by (apply (app_inv_tail (m_tr sa)); congruence). subst l'.
+    rewrite Ml, sent_events_steps, Ta in Qb. try rewrite T2 in Qb.
+    exists (i_iq (m_i sa)). split; [|exact Qb].
+    rewrite Q2 in Qa. exact Qa.
+  Qed.
+
+  Lemma In_insert_at {A} (x y : A) l : forall n, In y (insert_at n x l) <-> y = x \/ In y l.
+  Proof.
+    induction l as [|z l IH]; intros n; destruct n; cbn [insert_at In].
+    - intuition congruence.
+    - intuition congruence.
+    - intuition congruence.
+    - specialize (IH n). intuition congruence.
+  Qed.
+  Lemma In_ins t evs : forall q x,
+    In x (ins t evs q) <-> In x q \/ exists e, In e evs /\ x = ((t + delay_of e)%Z, e).
+  Proof.
+    induction evs as [|e evs IH]; intros q x; cbn [ins fold_left].
+    - split; [auto|]. intros [H|(e & [] & _)]; exact H.
+    - change (fold_left _ evs ?q0) with (ins t evs q0). rewrite IH. unfold queue_insert.
+      rewrite In_insert_at. split.
+      + intros [[->|H]|(e' & H & ->)]; eauto.
+        * right. exists e. split; [now left | reflexivity].
+        * right. exists e'. split; [now right | reflexivity].
+      + intros [H|(e' & [->|H] & ->)]; eauto.
+  Qed.
+
+  Corollary C15_self_In fuel now s s' t steps e :
+    names_ok -> execute_once fuel now s = (s', inl (Some (t, steps))) ->
+    In e (internal_sent steps) -> In ((now + delay_of e)%Z, e) (i_iq (m_i s')).
+  Proof.
+    intros Hn H Hin. destruct (C15_self _ _ _ _ _ _ Hn H) as (q0 & _ & ->).
+    apply In_ins. right. eauto.
   Qed.
 End MetaProofs.
 
